@@ -411,7 +411,7 @@ func ruleWEB6b(w *World, r *Report) {
 						}
 						if ub >= boundInf {
 							bad++
-							r.Bad("WEB-6b", fmt.Sprintf("%s:make-sized-by-request", fi.Obj.Name()), w.Pos(mk.Pos()), fi.Obj.Name()+" allocates a slice whose size comes from a request field without an upper bound: a huge value panics (makeslice: cap out of range → answered through the panic-recovery path) or exhausts memory")
+							r.Bad("WEB-6b", fmt.Sprintf("%s:make-sized-by-request", canonName(fi.Obj)), w.Pos(mk.Pos()), canonName(fi.Obj)+" allocates a slice whose size comes from a request field without an upper bound: a huge value panics (makeslice: cap out of range → answered through the panic-recovery path) or exhausts memory")
 						}
 					}
 				}
